@@ -32,7 +32,7 @@ the journal can still point at it — that is how the code behaves too (`aofLock
 
 Command subset (everything else is refused by the driver as out-of-subset): LOCK with Flag ∈ {0, contains-data}, TimeoutFlag ∈ {0,
 require-ack 0x1000}, ExpriedFlag 0, 0 < Expried < 190, value frames SET / INCR (8-byte operand) / APPEND without property header;
-UNLOCK with Flag ∈ {0, unlock-first 0x01} and no value frame. db.aofTime is 200 s in the harness, so holds that did not go through the
+PIPELINE frames made of those; UNLOCK with Flag ∈ {0, unlock-first 0x01} and no value frame. db.aofTime is 200 s in the harness, so holds that did not go through the
 ack branch are never journalled by age (Expried < 190); key records are pinned for the duration of a history (the value cell is not
 recycled). Not modelled: lock-record reference counts and the recycling of freed `Lock` objects (see tools/props/c11.py FINISH).
 -/
@@ -108,15 +108,41 @@ structure Undo where
   pre : Option Cell        -- `recoverData`
   val : Nat := 0           -- INCR: the operand; APPEND: index
   len : Nat := 0           -- APPEND: appended length
+  snap : Bool := false     -- `recoverValue == nil` although the operation is not SET: the record of a PIPELINE (undo = put `pre` back)
   deriving Repr, DecidableEq, Inhabited
 
-/-- is `f` a value frame of the subset: ≥ 6 bytes, stage 0, type SET / INCR with 8-byte operand / APPEND, no property / first-or-last flag -/
-def frameOk (f : Bytes) : Bool :=
+/-- is `f` a simple value frame of the subset: ≥ 6 bytes, stage 0, type SET / INCR with 8-byte operand / APPEND, no property / first-or-last flag -/
+def simpleOk (f : Bytes) : Bool :=
   decide (6 ≤ f.length) && (f.getD 4 0).toNat / 64 == 0 && (f.getD 5 0).toNat &&& 0x30 == 0 &&
     ((f.getD 4 0).toNat % 64 == 0 || ((f.getD 4 0).toNat % 64 == 2 && f.length == 14) || (f.getD 4 0).toNat % 64 == 3)
 
-/-- `ProcessLockData(command, lock, requireRecover)` for a subset frame: the new cell and the undo record it saves -/
-def applyFrame (cur : Option Cell) (f : Bytes) : Cell × Undo :=
+/-- the body of a PIPELINE frame cut into its sub-frames (`[len:4 LE][len bytes]` each, nothing left over); `fuel` ≥ number of bytes -/
+def splitFrames : Nat → Bytes → Option (List Bytes)
+  | 0, _ => none
+  | fuel + 1, b =>
+    if b.isEmpty then some []
+    else if b.length < 4 then none
+    else
+      let l := readLE (b.take 4)
+      if 4 + l > b.length then none
+      else match splitFrames fuel (b.drop (4 + l)) with
+        | some r => some (b.take (4 + l) :: r)
+        | none => none
+
+def pipeSubs (f : Bytes) : Option (List Bytes) := splitFrames (f.length + 1) (f.drop 6)
+
+/-- a PIPELINE frame of the subset: type 6, flag 0, exactly the concatenation of one or more simple frames of the subset -/
+def pipeOk (f : Bytes) : Bool :=
+  decide (6 ≤ f.length) && (f.getD 4 0).toNat == 6 && (f.getD 5 0).toNat == 0 &&
+    (match pipeSubs f with
+     | some (g :: gs) => (g :: gs).all simpleOk
+     | _ => false)
+
+/-- is `f` a value frame of the subset -/
+def frameOk (f : Bytes) : Bool := simpleOk f || pipeOk f
+
+/-- `ProcessLockData(command, lock, requireRecover)` for a simple frame of the subset: the new cell and the undo record it saves -/
+def applySimple (cur : Option Cell) (f : Bytes) : Cell × Undo :=
   let t := (f.getD 4 0).toNat % 64
   if t == 0 then
     let post : Cell := ⟨f, 0⟩
@@ -136,6 +162,16 @@ def applyFrame (cur : Option Cell) (f : Bytes) : Cell × Undo :=
       | none => ⟨f.take 4 ++ [0] ++ f.drop 5, 3⟩
     (post, { post := post, pre := cur, val := post.data.length - f.length + 6, len := f.length - 6 })
 
+/-- `ProcessLockData` for a frame of the subset. PIPELINE: the code puts the cell back to what it was BEFORE the pipeline ahead of every
+sub-operation (`command.CommandType != LOCK_DATA_COMMAND_TYPE_PIPELINE` compares the LOCK command's type, always true), so the cell the
+pipeline leaves is the LAST sub-operation applied to the cell before the pipeline; the undo record is `SaveRecoverData(cell before, nil)`. -/
+def applyFrame (cur : Option Cell) (f : Bytes) : Cell × Undo :=
+  if (f.getD 4 0).toNat % 64 == 6 then
+    match (pipeSubs f).bind List.getLast? with
+    | some g => let a := applySimple cur g; (a.1, { post := a.1, pre := cur, snap := true })
+    | none => (cur.getD unsetCell, { post := cur.getD unsetCell, pre := cur, snap := true })   -- (not a frame of the subset)
+  else applySimple cur f
+
 /-- `ProcessRecoverLockData(lock)`: `cur` = the key's cell now -/
 def undoCell (cur : Option Cell) (u : Undo) : Option Cell :=
   match cur with
@@ -147,6 +183,7 @@ def undoCell (cur : Option Cell) (u : Undo) : Option Cell :=
       | none => some unsetCell
       | some p =>
         if u.post.ctype == 0 then some p
+        else if u.snap then (if c.data == p.data then some c else some p)   -- c3f898d: no operand recorded = a pipeline: the saved cell comes back
         else if u.post.ctype == 2 then
           some ⟨[10, 0, 0, 0, 0, 1] ++ le64 ((u.post.incrValue + 2 ^ 64 - u.val % 2 ^ 64) % 2 ^ 64), 2⟩
         else if u.post.ctype == 3 then
